@@ -308,7 +308,21 @@ def f_vector_x(J, a=1.0, table=None):
     return np.array([a * J[0], table[0] + J[1], J[2] * table[2]])
 
 
-FUNCS = {"scalar": (f_scalar, {}), "scalar+args": (f_scalar_x, {"a": 2.5, "table": np.array([0.5, -1.25, 3.0])}),
+def f_mixed(J):
+    """an everyday piecewise function: a Python int (0 or 1) at some points, a float elsewhere — the serial list
+    comprehension promotes the whole result to float; so must the parallel evaluation, whatever the chunking"""
+    _cost(J, 0.004)
+    d = J[2] - J[0] - J[1]
+    return 0 if d < 0 else (1 if d == 0 else float(d))
+
+
+def f_mixed_vec(J):
+    _cost(J, 0.004)
+    return (1, 0, 2) if J[0] <= 0.125 else (float(J[0]), float(J[1]) + 0.5, float(J[2]) * 0.25)
+
+
+FUNCS = {"mixed-int-float": (f_mixed, {}), "mixed-int-float-vector": (f_mixed_vec, {}),
+         "scalar": (f_scalar, {}), "scalar+args": (f_scalar_x, {"a": 2.5, "table": np.array([0.5, -1.25, 3.0])}),
          "vector": (f_vector, {}), "vector+args": (f_vector_x, {"a": -0.75, "table": np.array([0.5, -1.25, 3.0])})}
 
 
